@@ -39,17 +39,18 @@ RECURSIVE Perms(_)
 Perms(S) == IF S = {} THEN {<<>>} ELSE UNION {{<<e>> \o p : p \in Perms(S \ {e})} : e \in S}
 
 GB == {NU + i : i \in BIdx}            \* global indices of the arity-2 candidates in use
-Scen == {<<f, "u", a>> : f \in UpTo(UIdx, MaxFam), a \in AUIdx}
-        \cup {<<f, "b", a>> : f \in UpTo(GB, MaxFam), a \in ABIdx}
-        \cup {<<{u} \cup g, "u", a>> : u \in MixU, g \in UpTo({NU + i : i \in MixB}, 2), a \in MixAU}
-        \cup {<<{u} \cup g, "b", a>> : u \in MixU, g \in UpTo({NU + i : i \in MixB}, 2), a \in MixAB}
+MixFams == {{u} \cup g : u \in MixU, g \in UpTo({NU + i : i \in MixB}, 2)}
 
 Args   == IF ak = "u" THEN ArgsU[ai] ELSE ArgsB[ai]
 FamSeq(f) == [i \in 1..Len(f) |-> AllC[f[i]]]
 IsAsc(f)  == \A i \in 1..(Len(f) - 1) : f[i] < f[i + 1]
 Asc(f)    == CHOOSE p \in Perms(Range(f)) : IsAsc(p)
 
-Init == \E sc \in Scen : \E p \in Perms(sc[1]) : fam = p /\ ak = sc[2] /\ ai = sc[3] /\ res = NoRes
+InitWith(f, k, a) == \E p \in Perms(f) : fam = p /\ ak = k /\ ai = a /\ res = NoRes
+Init == \/ \E f \in UpTo(UIdx, MaxFam) : \E a \in AUIdx : InitWith(f, "u", a)
+        \/ \E f \in UpTo(GB, MaxFam) : \E a \in ABIdx : InitWith(f, "b", a)
+        \/ \E f \in MixFams : \E a1 \in MixAU : InitWith(f, "u", a1)
+        \/ \E f \in MixFams : \E a2 \in MixAB : InitWith(f, "b", a2)
 
 Payload == [fam  |-> [i \in 1..Len(fam) |-> AllC[fam[i]].l],
             ak   |-> ak, ai |-> ai,
@@ -99,6 +100,8 @@ QMU == {1, 2, 16, 18}
 QMB == {1, 3, 14}
 QMAU == {1, 9, 11}
 QMAB == {1, 4, 12}
+QAU4 == {1, 3, 5, 7, 9, 11}
+QAB4 == {1, 2, 4, 7, 10, 12}
 TU  == 1..NU
 TB  == 1..NB
 TAU == 1..Len(ArgsU)
